@@ -262,13 +262,15 @@ Definition tail_corrupt (c : cfg) (file : list N) (more : bool) : bool :=
     end
   else false.
 
-(* one write operation: (offset, bytes).  None: "recovery attempt has failed", nothing written *)
+(* one write operation: (offset, bytes).  None: "recovery attempt has failed" (no complete first snapshot), nothing written *)
 Definition write_trace (c : cfg) (file new : list N) : option (N * list N) :=
   match old_walk c (S (length file)) (skipN 64 file) 64 with
   | None => None
   | Some size_old =>
+      (* the file ends inside the trailer of the first snapshot (interrupted first write): that trailer is all zeros
+         by construction; it is completed in place and the append goes on (commit 3b30990) *)
+      let file := if b_ok (read_blob (skipN size_old file)) then file else takeN size_old file ++ trailer 0 0 0 in
       let b0 := read_blob (skipN size_old file) in
-      if negb (b_ok b0) then None else
       let more := 0 <? b_next b0 in
       let d := ser (binary_diff peq (parse_stream c (takeN size_old file)) (parse_stream c new)) in
       let w := if tail_corrupt c file more
